@@ -63,8 +63,9 @@ type Policy struct {
 	TicketEType     int32 // etype of ticket enc-parts
 	MaxLife         time.Duration
 	MaxRenew        time.Duration
-	Lenient         bool // accept a TGS authenticator whose crealm differs from the ticket's, but record it
-	SendEncPARep    bool // RFC 6806 §11: answer PA-REQ-ENC-PA-REP
+	Lenient         bool          // accept a TGS authenticator whose crealm differs from the ticket's, but record it
+	SendEncPARep    bool          // RFC 6806 §11: answer PA-REQ-ENC-PA-REP
+	ExpiredGrace    time.Duration // a presented ticket is still honoured this long after its end time (KDCs apply their clock skew here)
 }
 
 // Issued is one entry of the issue log.
@@ -676,7 +677,7 @@ func (r *Realm) handleTGS(raw []byte) []byte {
 	opts := body["kdc-options"].([]byte)
 	tflags, _ := etp["flags"].([]byte)
 	renewReq := flagSet(opts, 30)
-	if now.After(tEnd) {
+	if now.After(tEnd.Add(r.Policy.ExpiredGrace)) {
 		return fail(ErrTktExpired, fmt.Sprintf("presented ticket has expired %d ms ago", now.Sub(tEnd).Milliseconds()))
 	}
 	et := r.pickEType(body["etype"].([]any), func(int32) bool { return true })
